@@ -12,6 +12,8 @@ use crate::common::canon::{canon_tx_sums as canon_tir, unresolved_tx as unresolv
 use crate::common::shape::tx as to_json;
 use crate::common::pipeline::{compiler, lower_source, PP};
 use crate::engine::{hash64, panics, Outcome, Prop, Sink, Tier, Violation};
+use crate::engine::dbx::{self, Chooser};
+use crate::gen::prog;
 use crate::gen::tirgen::{self, Probe, TreeId};
 use serde_json::{json, Value};
 use std::collections::{BTreeMap, HashMap, VecDeque};
@@ -288,6 +290,15 @@ impl Prop for C07 {
         for (name, src) in c13::corpus(tier) {
             sink.case(|| json!({"kind": "program", "file": name, "src": src}));
         }
+        // every distinct program text of the typed generator with <= 1 (thorough: 2) deviations
+        let mut seen = std::collections::HashSet::new();
+        let mut gen = |c: &mut Chooser| prog::generate(c);
+        dbx::explore(if tier.is_thorough() { 2 } else { 1 }, &mut gen, &mut |_choices, _devs, sc| {
+            let src = prog::render(&sc.prog, 0);
+            if seen.insert(src.clone()) {
+                sink.case(|| json!({"kind": "program", "file": format!("generator:{}", sc.labels.join("+")), "src": src}));
+            }
+        });
         let n = tirgen::contexts().len();
         for p in 0..5usize {
             for placement in 0..tirgen::PLACEMENTS.len() {
